@@ -6,7 +6,8 @@
    exhaustion on nesting depth, allocator failure and RefCell borrow errors are runtime behaviour
    the model cannot exhibit (the harness exercises 300 nesting levels under catch_unwind). *)
 From RX Require Import Base.Prelude Spec.Repl Model.Engine Model.Matcher Model.Compiler Model.Api
-     Proofs.ReplProof Proofs.SmallFacts Model.Op Proofs.EngineFacts Proofs.EngineCorollaries.
+     Proofs.ReplProof Proofs.SmallFacts Model.Op Proofs.EngineFacts Proofs.EngineCorollaries
+     Spec.Syntax Spec.Parse Proofs.ScanFacts Proofs.GroupGrammar Proofs.GroupSpec Proofs.GroupScan.
 
 Theorem C05_expansion_total_partial :
   forall r maxc cap acc,
@@ -35,7 +36,26 @@ Theorem C05_engine_fragment_no_panic_partial :
     match matches prog input i s with MTrue _ | MFalse _ => True | MOut | MPanic _ => False end.
 Proof. intros prog input i s H1 H2. exact (fragment_no_panic_no_out prog input H1 H2 i s). Qed.
 
+(* the property from the strings on the grammar of Proofs/GroupGrammar.v: no call panics, exhausts a
+   fuel or reports an internal error - Regex::new is Ok (InvalidFlags for a rejected flag string),
+   is_match is Ok, and for a regex not flagged nullable tokenize and replace_all (plain replacement) are Ok *)
+Theorem C05_group_grammar_total_partial :
+  forall xpath a fls input,
+    ok_a xpath a = true -> existsb (N.eqb 59) fls = false -> (N.of_nat (length input) < umax)%N ->
+    match spec_flags xpath fls with
+    | Valid sf =>
+        s_q sf = false -> s_x sf = false ->
+        exists re b, regex_new true xpath (show_a a) fls = Ok re /\ is_match re input = Ok b
+          /\ (r_nullable re = false ->
+              (exists l, tok_all (matches (r_prog re) input) input (S (S (S (length input)))) {| t_prev := Some 0; t_ms := st0 |} = Ok l)
+              /\ (forall repl, plain repl = true -> exists out, replace_all re input repl = Ok out))
+    | Invalid => regex_new true xpath (show_a a) fls = Err EInvalidFlags
+    | Unspecified => True
+    end.
+Proof. exact grammar_total. Qed.
+
 Print Assumptions C05_expansion_total_partial.
 Print Assumptions C05_replace_errors_classified_partial.
 Print Assumptions C05_flags_total.
 Print Assumptions C05_engine_fragment_no_panic_partial.
+Print Assumptions C05_group_grammar_total_partial.
